@@ -703,11 +703,15 @@ func (x *xl) localBuilder(e ast.Expr, what string) (string, *types.Var, error) {
 	if x.optVars[v] {
 		return "", nil, x.errf(e, "%s on a possibly-nil variable", what)
 	}
+	x.mutated[v] = true
 	return x.nameOf(v), v, nil
 }
 
 // domSimple: statements that mutate a local builder / map / accumulator
 func (x *xl) domSimple(s ast.Stmt) ([]string, bool, error) {
+	if err := x.noteAliases(s); err != nil {
+		return nil, true, err
+	}
 	switch y := s.(type) {
 	case *ast.ExprStmt:
 		c, ok := y.X.(*ast.CallExpr)
@@ -856,6 +860,7 @@ func (x *xl) domSimple(s ast.Stmt) ([]string, bool, error) {
 							return nil, true, x.errf(s, "alias of the accumulator map")
 						}
 						x.names[x.p.info.Defs[lid]] = x.nameOf(x.acc)
+						x.accAlias[x.p.info.Defs[lid]] = true
 						return nil, true, nil
 					}
 				}
@@ -1568,6 +1573,95 @@ func (x *xl) unaliasedLocalSlice(at ast.Node, v *types.Var) error {
 	})
 	if !made || bad {
 		return x.errf(at, "element assignment to a slice that is not a local `make` result used only by index assignment, len and return (aliasing)")
+	}
+	return nil
+}
+
+// ---------------------------------------------------------------- aliasing of reference values
+//
+// Builders, Go maps and DOM containers / lists are REFERENCES in Go; the translation gives every variable a VALUE.
+// The two agree as long as no object that is mutated in place (functional update, see localBuilder) is reachable
+// through two names.  noteAliases records every copy `a := b` / `a = b` / `var a = b` between variables of such a
+// kind; checkAliases (end of the function) fails when one side of a recorded copy is a mutation target.
+
+func isRefKind(t types.Type) bool {
+	switch domKind(t) {
+	case "cont", "list", "leafmap", "contmap", "plainmap", "node":
+		return true
+	}
+	return false
+}
+
+func (x *xl) noteAliases(s ast.Stmt) error {
+	info := x.p.info
+	varOf := func(e ast.Expr) types.Object {
+		for {
+			p, ok := e.(*ast.ParenExpr)
+			if !ok {
+				break
+			}
+			e = p.X
+		}
+		id, ok := e.(*ast.Ident)
+		if !ok {
+			return nil
+		}
+		if o := info.Defs[id]; o != nil {
+			return o
+		}
+		if v, ok := info.Uses[id].(*types.Var); ok && !v.IsField() {
+			return v
+		}
+		return nil
+	}
+	pair := func(l, r ast.Expr) error {
+		lo, ro := varOf(l), varOf(r)
+		if lo != nil && x.accAlias[lo] {
+			return x.errf(s, "assignment to %s, the second name of the accumulator map", lo.Name())
+		}
+		if lo == nil || ro == nil || lo == ro || !isRefKind(ro.Type()) {
+			return nil
+		}
+		x.aliasPairs = append(x.aliasPairs, [2]types.Object{lo, ro})
+		return nil
+	}
+	switch y := s.(type) {
+	case *ast.AssignStmt:
+		if len(y.Lhs) == len(y.Rhs) {
+			for i := range y.Lhs {
+				if err := pair(y.Lhs[i], y.Rhs[i]); err != nil {
+					return err
+				}
+			}
+		} else {
+			for _, l := range y.Lhs {
+				if lo := varOf(l); lo != nil && x.accAlias[lo] {
+					return x.errf(s, "assignment to %s, the second name of the accumulator map", lo.Name())
+				}
+			}
+		}
+	case *ast.DeclStmt:
+		if gd, ok := y.Decl.(*ast.GenDecl); ok {
+			for _, sp := range gd.Specs {
+				if vs, ok := sp.(*ast.ValueSpec); ok && len(vs.Values) == len(vs.Names) {
+					for i := range vs.Names {
+						if err := pair(vs.Names[i], vs.Values[i]); err != nil {
+							return err
+						}
+					}
+				}
+			}
+		}
+	}
+	return nil
+}
+
+func (x *xl) checkAliases() error {
+	for _, p := range x.aliasPairs {
+		if x.mutated[p[0]] || x.mutated[p[1]] {
+			return fmt.Errorf("%s: unsupported: %s and %s name the same object and one of them is mutated in place (aliasing)",
+				x.w.fset.Position(p[0].Pos()), p[0].Name(), p[1].Name())
+		}
 	}
 	return nil
 }
